@@ -297,6 +297,109 @@ def slice_context(tier):
             c.err = err; c.emit()
 
 
+# ---------------------------------------------------------------- slice 4b: code that is not emitted in source order, and line breaks inside expressions
+EXPRS = {"error": None, "index": "({ })[zi]", "div": "7 / zd"}
+
+
+def slice_loops(tier):
+    """loop conditions and increments (their code is emitted after the body) raising the error, directly and as the call site of a failing function;
+    headers on one line and spread over several lines; bodies of 0, 1 and 3 lines"""
+    for kind, (stmt, err) in FAILS.items():
+        for how in ("expression", "call"):
+            if how == "expression" and EXPRS[kind] is None: continue
+            bad = EXPRS[kind] if how == "expression" else "thrower()"
+            for nbody in (0, 1, 3):
+                body = ["zf = %d;" % i for i in range(nbody)]
+                shapes = [
+                    ("while-condition", ["while (%s) {" % bad], ["}"], 0),
+                    ("while-condition-second-round", ["while (n++ < 1 || %s) {" % bad], ["}"], 0),
+                    ("do-while-condition", ["do {"], ["} while (%s);" % bad], "tail"),
+                    ("for-condition", ["for (n = 0; %s; n++) {" % bad], ["}"], 0),
+                    ("for-increment", ["for (n = 0; n < 2; n += %s) {" % bad], ["}"], 0),
+                    ("for-init", ["for (n = %s; n < 2; n++) {" % bad], ["}"], 0),
+                    ("for-condition-own-line", ["for (n = 0;", "     n < 1 && %s;" % bad, "     n++) {"], ["}"], 1),
+                    ("for-increment-own-line", ["for (n = 0;", "     n < 2;", "     n += %s) {" % bad], ["}"], 2),
+                    ("while-condition-own-line", ["while (n < 5 &&", "       %s) {" % bad], ["}"], 1),
+                    ("foreach-source", ["foreach (mixed e in ({ 1, %s })) {" % bad], ["}"], 0),
+                    ("if-condition", ["if (%s) {" % bad], ["}"], 0),
+                    ("else-if-condition", ["if (zd) {", "zf = 9;", "} else if (%s) {" % bad], ["}"], 2),
+                    ("switch-expression", ["switch (%s) {" % bad, "case 1:"], ["}"], 0),
+                    ("ternary-second-line", ["zz = zd ? 1 :", "     %s;" % bad, "{"], ["}"], 1),
+                    ("nested-loop-outer-condition", ["while (%s) {" % bad, "while (zd) {", "zf = 7;", "}"], ["}"], 0),
+                ]
+                for name, head, tail, where in shapes:
+                    if nbody == 0 and how == "expression" and name in ("if-condition", "else-if-condition"): continue    # an if without a body: the compiler drops the test
+                    c = Case("loops", "%s body=%d via=%s fail=%s" % (name, nbody, how, kind), ctx="loop-header")
+                    L = [GLOBALS, "mixed thrower() {", stmt, "return 1; }", "", "mixed f0() {", "int n;"]
+                    start = len(L)
+                    L += head + body + tail
+                    line = (len(L) if where == "tail" else start + 1 + where)
+                    L += ["return 0; }"]
+                    c.files[c.path("main.c")] = lines_to_text(L)
+                    c.frame(c.prog(), line, "f0")
+                    if how == "call": c.frame(c.prog(), 3, "thrower")
+                    c.err = err; c.emit()
+
+
+BREAKS = [   # an expression statement with a line break directly after a token (name, lines)
+    ("functional-open", ["zz = (:", "$1 + 1 :);"]),
+    ("functional-open-two-breaks", ["zz = (:", "", "$1 + 1 :);"]),
+    ("functional-open-then-comment", ["zz = (: // c", "$1 + 1 :);"]),
+    ("functional-inside", ["zz = (: $1 +", "1 :);"]),
+    ("functional-close", ["zz = (: $1 + 1", ":);"]),
+    ("functional-name", ["zz = (:", "f1 :);"]),
+    ("functional-name-args", ["zz = (: f1,", "2 :);"]),
+    ("functional-dollar-paren", ["zz = (: $(", "zi) :);"]),
+    ("array-open", ["zz = ({", "1, 2 });"]),
+    ("mapping-open", ["zz = ([", '"a" : 1 ]);']),
+    ("paren-open", ["zz = (", "1 + 2);"]),
+    ("call-open", ["zz = allocate(", "3);"]),
+    ("comma", ["zz = ({ 1,", "2 });"]),
+    ("arrow", ["zz = this_object()->", "f1(2);"]),
+    ("efun-scope", ["zz = efun::", "sizeof(({ }));"]),
+    ("string-plus", ['zz = "a" +', '"b";']),
+    ("question", ["zz = zi ?", "1 :", "2;"]),
+    ("range", ["zz = ({ 1, 2, 3 })[0..", "1];"]),
+    ("anonymous-function", ["zz = function(int a) {", "return a; };"]),
+    ("catch-open", ["zz = catch(", "zf = 1);"]),
+    ("char-plus", ["zz = 'a' +", "1;"]),
+    ("comment-in-expression", ["zz = 1 // c", "+ 2;"]),
+    ("block-comment-in-expression", ["zz = 1 /* c", "c */ + 2;"]),
+    ("assign", ["zz =", "5;"]),
+    ("index-open", ["zz = ({ 1, 2 })[", "1];"]),
+    ("sscanf-args", ['zz = sscanf("a 1", "%s %d", zz,', "zf);"]),
+]
+
+
+def slice_linebreaks(tier):
+    """a line break directly after each kind of token; the failing statement on the next line, and (for the forms that carry code) inside the second line"""
+    for kind, (stmt, err) in FAILS.items():
+        for name, lines in BREAKS:
+            for pos in ("function", "initializer"):
+                c = Case("linebreaks", "break-after=%s in=%s fail=%s" % (name, pos, kind), ctx="after-line-break")
+                if pos == "function":
+                    L = [GLOBALS, "mixed f1(mixed a) { return a; }", "mixed f0() {"] + lines + [stmt, "return 0; }"]
+                    c.files[c.path("main.c")] = lines_to_text(L)
+                    c.frame(c.prog(), 3 + len(lines) + 1, "f0")
+                else:
+                    if EXPRS[kind] is None: bad = 'error("E18")'
+                    else: bad = EXPRS[kind]
+                    L = [GLOBALS, "mixed f1(mixed a) { return a; }"] + ["mixed " + lines[0].replace("zz =", "zq =", 1)] + lines[1:] + ["mixed bad = " + bad + ";", "mixed f0() { return 0; }"]
+                    c.files[c.path("main.c")] = lines_to_text(L)
+                    c.frame(c.prog(), 2 + len(lines) + 1, "#global_init#")
+                c.err = err; c.emit()
+        # the error inside a functional that starts with a line break
+        expr = {"error": 'error("E18")', "index": "({ })[zi]", "div": "7 / zd"}[kind]
+        for name, lines, fl in (("functional-open", ["f = (:", expr + " :);"], 2), ("functional-open-two-breaks", ["f = (:", "", expr + " :);"], 3),
+                                ("functional-second-line", ["f = (: zf +", expr + " :);"], 2), ("functional-one-line", ["f = (: " + expr + " :);"], 1)):
+            if kind == "error" and name == "functional-second-line": continue      # error() has no value to add
+            c = Case("linebreaks", "inside %s fail=%s" % (name, kind), ctx="function-literal")
+            L = [GLOBALS, "mixed f0() {", "function f;"] + lines + ["return evaluate(f);", "}"]
+            c.files[c.path("main.c")] = lines_to_text(L)
+            c.frame(c.prog(), 3 + len(lines) + 1, "f0"); c.frame(c.prog(), 3 + fl, "<function>", fp=1)
+            c.err = err; c.emit()
+
+
 # ---------------------------------------------------------------- slice 5: call depth 1..4 through different kinds of calls
 HOPS = ("local", "call_other", "funptr", "efun-callback")
 
@@ -417,7 +520,7 @@ def main():
     tier = sys.argv[1] if len(sys.argv) > 1 else "quick"
     only = sys.argv[2].split(",") if len(sys.argv) > 2 else None
     for name, fn in (("line", slice_line), ("include", slice_include), ("codelen", slice_codelen), ("context", slice_context), ("depth", slice_depth),
-                     ("termination", slice_termination), ("history", slice_history)):
+                     ("termination", slice_termination), ("history", slice_history), ("loops", slice_loops), ("linebreaks", slice_linebreaks)):
         if only and name not in only: continue
         fn(tier)
     sys.stderr.write("c18 cases: %d %s\n" % (cid, counts))
